@@ -478,6 +478,38 @@ func timings(t *testing.T, prop string) {
 	}
 }
 
+// C05 across a receiver outage that covers the moment a repeat is due: the alert resolves while the receiver is down.
+// The notification log remembers what the receiver was told for a multiple of repeat_interval; an outage shorter
+// than that must not make the instance forget that it still owes the receiver the resolved notification.
+func evOutage(d time.Duration) fEvent {
+	return fEvent{fmt.Sprintf("webhook answers with errors for %v; half way through A resolves; then the webhook is fine again", d), func(x *fx) bool {
+		if _, ok := x.gt.alerts["A"]; !ok {
+			return false
+		}
+		x.setMode("r1/webhook/0", mRecoverable)
+		time.Sleep(d / 2)
+		x.resolve("A", "1")
+		time.Sleep(d - d/2)
+		x.setMode("r1/webhook/0", mOK)
+		return true
+	}}
+}
+
+func TestVerifC05AppOutage(t *testing.T) {
+	fInit(t)
+	c := fMon1()
+	s := &fScenario{prop: "C05", part: "app-outage-across-a-repeat", yaml: fYAML1, integs: fIntegs1, mon: c, fo: defaultFOpts(), rt: time.Minute,
+		tail: 4 * time.Minute, depthQ: 3, depthT: 4,
+		monitors: append(stdMonitors(c), func(x *fx, at []fAttempt) *violation { return monitorOutage(x.gt, c, at, gk1) }),
+		events: []fEvent{
+			{"fire A (end+1h)", func(x *fx) bool { x.fire("A", "1", time.Hour); return true }},
+			{"fire B (same group, end+1h)", func(x *fx) bool { x.fire("B", "1", time.Hour); return true }},
+			evOutage(45 * time.Second), evOutage(3*time.Minute + 50*time.Second), evOutage(5 * time.Minute),
+			evAdvance(11 * time.Second), evAdvance(2 * time.Minute),
+		}}
+	s.explore(t)
+}
+
 func TestVerifC05App(t *testing.T) {
 	fInit(t)
 	c := fMon1()
